@@ -267,6 +267,8 @@ def run(m, tier):
     r16 = engine_tables.word_cls_rule(m, "C08.R16")
     r16.title = "text after a keyword that takes nothing (BLOCK, CRITICAL ...: cls=None) is refused, so a stray parenthesis there is not dropped: " + r16.title
     results.append(r16)
+    from rules import prog_rules
+    results.append(prog_rules.nesting_rule(m, "C08.R17", tier))
     expl = ("Decides the structural clauses of C08: the table of block constructs extracted from every "
             "BlockBase.match call site agrees with the Fortran 2003/2008 rules (opening/END pair, name and label "
             "comparison flags), every END statement class names its keyword and refuses a bare END where the standard "
